@@ -5,6 +5,7 @@ package main
 import (
 	"bytes"
 	"fmt"
+	"io"
 	"math/rand/v2"
 	"strings"
 
@@ -229,12 +230,17 @@ func c03Files(c *Ctx) {
 				text.WriteByte('\n')
 				want = append(want, item{Key: fmt.Sprintf("HDR{%q}", h)})
 			}
+			var ms []func() ([]byte, error)
+			var ws []func(io.Writer) error
 			for j := 0; j < nr; j++ {
 				s := genSAM(r)
-				s.Write(&text)
+				ms = append(ms, s.MarshalText)
+				ws = append(ws, s.Write)
 				want = append(want, item{Key: samKey(s)})
 				wantRecs = append(wantRecs, item{Key: samKey(s)})
 			}
+			// all records marshalled first (results held), then written and compared
+			text.Write(heldMarshalCheck(k, ms, ws))
 			k.Input("text", text.Bytes())
 			got, over := collect(codecByName("samh").seq(bytes.NewReader(text.Bytes())), len(want)+5)
 			if over || !sameTrace(got, want) {
